@@ -74,11 +74,15 @@ def synthetic_stream(r, n: int) -> tuple[list[tokenize.TokenInfo], str]:
         col += max(len(s), 1)
         if span:
             line += span
-        if k in (T.NEWLINE, tokenize.NL) or r.random() < 0.15:
+        if k in (T.NEWLINE, tokenize.NL):
+            # only a NEWLINE/NL token ends a physical line (tokenize's contract: every line is touched by a token)
             line += 1 if line + 1 < nlines else 0
             col = 0
-    toks.append(tokenize.TokenInfo(T.ENDMARKER, "", (line + 1, 0), (line + 1, 0), ""))
-    return toks, "".join(text_lines[:line])
+    if col > 0:      # terminate the last physical line, as tokenize does
+        toks.append(tokenize.TokenInfo(T.NEWLINE, "", (line, col), (line, col + 1), text_lines[line - 1]))
+        line += 1
+    toks.append(tokenize.TokenInfo(T.ENDMARKER, "", (line, 0), (line, 0), ""))
+    return toks, "".join(text_lines[:line - 1])
 
 
 class CountingIter:
